@@ -66,10 +66,7 @@ def c01_2(ctx):
         raise AnalysisError("no comparison of the computed x coordinate with %s.r found in verify" % sig)
     for n, c, other in sites:
         ex = expand(fn, n.id, other)
-        reduced = False
-        for b in ast.walk(ex):
-            if isinstance(b, ast.BinOp) and isinstance(b.op, ast.Mod) and fold.fold(b.right) == N:
-                reduced = True
+        reduced = isinstance(ex, ast.BinOp) and isinstance(ex.op, ast.Mod) and fold.fold(ex.right) == N
         if reduced:
             out.append(ctx.ok("pecc:S256Point.verify", "x coordinate compared with r is reduced mod N: `%s`" % ast.unparse(c), c, mod, key="xmodn"))
         else:
